@@ -111,3 +111,36 @@ func (t *Torrent) VerifWebseedGR(ctx context.Context, ws *webseed.GetRight, inde
 func (t *Torrent) VerifWebseedH(ctx context.Context, ws *webseed.Hoffman, index, offset, length uint32) {
 	webseedH(ctx, ws, t, index, offset, length)
 }
+
+// VerifPeriodicRequest is the request-ticker branch of the main loop.
+func (t *Torrent) VerifPeriodicRequest(ctx context.Context) {
+	periodicRequest(ctx, t)
+}
+
+// VerifPeers returns the torrent's current peers.
+func (t *Torrent) VerifPeers() []*peer.Peer {
+	return t.peers
+}
+
+// VerifRequestedPiece describes one entry of the set of requested pieces.
+type VerifRequestedPiece struct {
+	Index   uint32
+	Prio    []int8
+	Waiting bool // a completion channel has been handed out and not closed
+}
+
+// VerifRequested returns the set of requested pieces, sorted by index.
+func (t *Torrent) VerifRequested() []VerifRequestedPiece {
+	var out []VerifRequestedPiece
+	for i, r := range t.requested.pieces {
+		out = append(out, VerifRequestedPiece{i, append([]int8(nil), r.prio...), r.done != nil})
+	}
+	sort.Slice(out, func(i, j int) bool { return out[i].Index < out[j].Index })
+	return out
+}
+
+// VerifFinish does what run does when the main loop exits.
+func (t *Torrent) VerifFinish() {
+	close(t.Done)
+	t.Pieces.Del()
+}
